@@ -44,15 +44,21 @@ def sig_of(case, clause):
     elif name == "owner_cap":
         cap, before = int(a.get("cap", "0")), int(a.get("cap_before", "0"))
         feat = "negative-cap" if cap < 0 else ("zero-cap" if cap == 0 else ("raised" if cap > before else "other"))
-    elif name == "cap_hist":
+    elif name == "cap_hist" and kind != "mint_issue_x2_one_tx":
         d = a.get("denom")
         neg = any(o["kind"] == "upsert_msg" and o["res"] == "ok" and o["args"].get("denom") == d and int(o["args"].get("cap", "0")) < 0
                   for o in case["ops"][:step])
         feat = "after-negative-cap" if neg else "other"
+    elif name in ("cap", "cap_hist") and kind == "mint_issue_x2_one_tx":
+        feat = "sum-of-two-mints"
     elif name in ("reg_tracks", "cap", "reject", "gate", "owner_only"):
         feat = a.get("denom", "-") if kind != "block" else "native"
         if feat == "ukex":
             feat = "native"
+    elif name in ("ubi_gate", "ubi_mints"):
+        recs = (op.get("obs") or {}).get("ubi_records_before") or []
+        mints = (op.get("obs") or {}).get("ubi_mints_in_order") or []
+        feat = "%d-mints-of-%d-records" % (len(mints), len(recs))
     elif name in ("infl_target", "annual_gate", "snapshot"):
         feat = "dt%s" % ("-long" if a.get("dt", 0) > 2592000 else "-short")
     return "%s:%s:%s" % (name, kind, feat), step
